@@ -20,10 +20,11 @@ package hash
 //@ func Sum
 //@   ensures knownHash(ht) ==> ret1 == nil && ret0 != nil && ret0.HashType == ht && content(ret0.Hash) == digest(ht, data)
 //@   ensures !knownHash(ht) ==> ret1 != nil
+//@   ensures ret1 == nil ==> fresh(ret0.Hash)
 //@   fresh ret0
 
 //@ func NewHash
-//@   ensures ret != nil && ret.HashType == ht && ret.Hash == h
+//@   ensures ret != nil && ret.HashType == ht && same(ret.Hash, h)
 //@   fresh ret
 
 // Verifying succeeds exactly when the digest of the data under the hash's
